@@ -124,6 +124,72 @@ def huge_scenario(rng, n=1300):
     return sc
 
 
+def inside_out_family(run, binary, base):
+    """A tree assembled INSIDE-OUT (files first, then the folders from the deepest up, everything moved into place): every entry has a
+    LOWER inode number than the folder that holds it, and a narrow deep shape puts a folder and its contents close together in the walk.
+    Whatever batching or ordering the listing side applies for speed (by inode, by name, ...), every folder must still be created before
+    its contents and every entry deleted before its parent: the sync into a new destination and the sync that empties it again must both
+    succeed."""
+    root = tempfile.mkdtemp(prefix='io_', dir=base)
+    try:
+        depth, per = 40, 100
+
+        def build(where):
+            stage = os.path.join(root, 'stage')
+            os.makedirs(stage)
+            for k in range(depth):
+                for j in range(per):
+                    with open(os.path.join(stage, 'f_%02d_%03d' % (k, j)), 'wb') as f:
+                        f.write(b'%d.%d' % (k, j))
+            prev = None
+            for k in reversed(range(depth)):
+                d = os.path.join(stage, 'dir%02d' % k)
+                os.mkdir(d)
+                for j in range(per):
+                    os.rename(os.path.join(stage, 'f_%02d_%03d' % (k, j)), os.path.join(d, 'f%03d' % j))
+                if prev:
+                    os.rename(prev, os.path.join(d, 'sub'))
+                prev = d
+            os.mkdir(where)
+            os.rename(prev, os.path.join(where, 'top'))
+            os.rmdir(stage)
+        src = os.path.join(root, 'src')
+        build(src)
+        empty = os.path.join(root, 'empty')
+        os.mkdir(empty)
+        dest = os.path.join(root, 'dest')
+        dest2 = os.path.join(root, 'dest2')
+        build(dest2)                      # the tree to be emptied is assembled inside-out as well
+        # how far the walking thread is ahead of the thread that fetches the details is a matter of timing: several rounds
+        ok1 = ok2 = True
+        for rnd in range(5):
+            d_i = dest + '_copy%d' % rnd
+            r1 = e2e.run_cli(binary, [src + '/', d_i + '/'], timeout=120)
+            ok1 = r1['exit'] == 0 and e2e.snapshot(d_i, with_hash=False).keys() == e2e.snapshot(src, with_hash=False).keys()
+            shutil.rmtree(d_i, ignore_errors=True)
+            if not ok1:
+                break
+        for rnd in range(3):
+            if rnd:
+                shutil.rmtree(dest2, ignore_errors=True)
+                build(dest2)
+            r2 = e2e.run_cli(binary, [empty + '/', dest2 + '/'], timeout=120)
+            ok2 = r2['exit'] == 0 and list(e2e.snapshot(dest2, with_hash=False)) == ['']
+            if not ok2:
+                break
+        run.count('inside-out:create:%s' % r1['exit']); run.count('inside-out:delete:%s' % r2['exit'])
+        run.case(('inside-out', depth, per), True, sample={'entries': depth * (per + 1), 'create_exit': r1['exit'], 'delete_exit': r2['exit']})
+        run.traces_validated += 2
+        if not ok1:
+            run.fail('C13 (tree assembled inside-out, %d entries): the sync into a new destination failed or is incomplete - a folder was not created before its contents: %s' % (
+                depth * (per + 1), (r1['stdout'] + r1['stderr'])[-300:]), {'family': 'inside-out', 'phase': 'create', 'exit': r1['exit']})
+        elif not ok2:
+            run.fail('C13 (tree assembled inside-out): emptying the destination failed - an entry was not deleted before its parent: %s' % (
+                (r2['stdout'] + r2['stderr'])[-300:]), {'family': 'inside-out', 'phase': 'delete', 'exit': r2['exit']})
+    finally:
+        shutil.rmtree(root, ignore_errors=True)
+
+
 def check(run):
     run.trusted = list(vlib.COMMON_TRUSTED) + [
         'crossbeam channel FIFO + select (the scripted doers keep one listing message in flight to force an interleaving)',
@@ -225,6 +291,7 @@ def check(run):
     # end-to-end: the real CLI with the real listing orders
     base = tempfile.mkdtemp(prefix='c13_', dir=vlib.CACHE)
     try:
+        inside_out_family(run, binary, base)
         for i in range(n_e2e):
             sc = sync_e2e.gen_scenario(rng, 'clean')
             o = sync_e2e.run_scenario(sc, binary, jbin, base)
